@@ -298,8 +298,8 @@ func c08SingleFailedResponse(r *ssoRun) *ev.Violation {
 		if n != 1 || len(d.Forms) != 1 {
 			return ev.V("C08/several-messages", "%d forms, %d with a SAMLResponse field", len(d.Forms), n)
 		}
-		if strings.Count(string(r.Rep.Body), "<html") != 1 {
-			return ev.V("C08/several-messages", "%d html documents in one body", strings.Count(string(r.Rep.Body), "<html"))
+		if n := strings.Count(strings.ToLower(string(r.Rep.Body)), "<html"); n > 1 {
+			return ev.V("C08/several-messages", "%d html documents in one body", n)
 		}
 	case obs.KindRedirectSAML:
 		if len(d.RawParam("SAMLResponse")) != 1 {
